@@ -1,5 +1,6 @@
 import Mp4ff.Model.Walk
 import Mp4ff.Lemmas.C04
+import Mp4ff.Lemmas.C04Leaf
 /-!
 # C04 — untrusted container input never crashes, hangs or balloons memory
 What a theorem can carry of this property: the *structural* part of container decoding (`Model/Walk.lean`, the
@@ -35,6 +36,20 @@ theorem decodeBox_fuel_mono (f g : Nat) (hfg : f ≤ g) (bs : Bytes) (pos : Nat)
 theorem decodeBox_fuel_sufficient (g : Nat) (bs : Bytes) (pos : Nat) (r : Node × Nat)
     (h : decodeBox g bs pos = some r) : decodeBox (bs.length + 2) bs pos = some r :=
   Walk.decodeBox_fuel_sufficient g bs pos r h
+
+/-- **every modelled leaf-box decoder returns at most |payload| + 40 values**, whatever count fields and lengths
+    the payload announces (42 box types of `Boxes.specs`; every field inside a repeated group consumes at least one
+    byte, so an inflated count cannot inflate the result): allocation linear in the input -/
+theorem modelled_decoders_linear (ty : String) (sp : Boxes.Spec) (hsp : (ty, sp) ∈ Boxes.specs) (f : Nat)
+    (payload : Bytes) (tr : Layout.Trace) (rest : Bytes)
+    (h : Layout.decode f sp.layout [] payload = some (tr, rest)) : tr.length ≤ payload.length + 40 :=
+  Boxes.modelled_decoders_linear ty sp hsp f payload tr rest h
+
+/-- the generic statement behind it: decoded values ≤ consumed bytes + the number of fields outside repeated groups -/
+theorem decode_alloc_bound (f : Nat) (L : List Layout.Syn) (hL : Layout.listRepOK false L = true) (acc : Layout.Trace)
+    (bs : Bytes) (tr : Layout.Trace) (rest : Bytes) (h : Layout.decode f L acc bs = some (tr, rest)) :
+    rest.length ≤ bs.length ∧ tr.length ≤ acc.length + (bs.length - rest.length) + Layout.listTopFlds L :=
+  Layout.decode_alloc_bound f L hL acc bs tr rest h
 
 /-- non-vacuity: a moov holding an mvhd-sized leaf and an empty trak -/
 example : (walk ([0,0,0,24] ++ [0x6d,0x6f,0x6f,0x76] ++ [0,0,0,8,0x66,0x72,0x65,0x65] ++ [0,0,0,8,0x74,0x72,0x61,0x6b])).map countAll
